@@ -152,6 +152,26 @@ void harness(void)
 	V_CHECK("type_add: existing entries undisturbed", IMP(in_kc * 30 + in_ki < before, ch[in_kc]->traits[in_ki] == old && mpt_type_traits(MPT_ENUM(_TypeValueAdd) + in_kc * 30 + in_ki) == old));
 	V_COVER("new chunk appended", id >= 0 && in_used == 30);
 	V_COVER("refused", id < 0);
+#elif defined(UNIT_METAFULL)
+	/* mpt_type_metatype_add near and at the end of the metatype range: a list of MCH chunks, all full but the last */
+	IN(int, in_used);
+	static struct named_traits_chunk mch[MCH]; static MPT_STRUCT(named_traits) anon;
+	const MPT_STRUCT(named_traits) *ret; int i, j, before;
+	V_REQ(in_used >= 0 && in_used <= 30);
+	*((const void **) &anon.traits) = &pointer_traits; *((const char **) &anon.name) = 0;
+	for (i = 0; i < MCH; i++) { for (j = 0; j < 30; j++) mch[i].traits[j] = &anon; mch[i].used = (i + 1 < MCH) ? 30 : in_used; mch[i].next = (i + 1 < MCH) ? &mch[i + 1] : 0; }
+	meta_types = &mch[0];
+	before = (MCH - 1) * 30 + in_used;
+	ret = mpt_type_metatype_add(0);
+	V_CHECK("metatype_add: an id is handed out exactly while the range has room", (ret != 0) == (MPT_ENUM(_TypeMetaPtrBase) + before <= MPT_ENUM(_TypeMetaPtrMax)) || (ret == 0 && in_used == 30));
+	if (ret) {
+		V_CHECK("metatype_add: the id is the next one and lies in the metatype range", ret->type == (MPT_TYPE(type)) (MPT_ENUM(_TypeMetaPtrBase) + before) && MPT_type_isMetaPtr(ret->type));
+		V_CHECK("metatype_add: the id resolves to the new entry", mpt_metatype_traits(ret->type) == ret);
+	} else {
+		V_CHECK("metatype_add: refusal leaves the last chunk as it was", mch[MCH - 1].used == in_used);
+	}
+	V_COVER("last id of the range", ret && ret->type == MPT_ENUM(_TypeMetaPtrMax));
+	V_COVER("range exhausted", !ret && in_used < 30);
 #elif defined(UNIT_NAMED)
 	/* mpt_type_metatype_add / mpt_type_interface_add: names unique, too short names refused */
 	IN(int, in_used); IN(int, in_k); IN(int, in_same); IN(int, in_iface); IN(int, in_ipos);
